@@ -321,6 +321,35 @@ func randomCall(r *rand.Rand, ts *TraceSpec, last *Event, chunkIDs []string) Cal
 	k := 1 + r.Intn(3)
 	ch := chunkIDs[r.Intn(len(chunkIDs))]
 	switch x := r.Intn(100); {
+	case x < 4 && len(dirs) > 0:
+		// batched archive-interface call: 1..3 members with content below an existing directory
+		d := pick(dirs)
+		if len(d) >= ts.MaxDepth {
+			d = d[:ts.MaxDepth-1]
+		}
+		n := 1 + r.Intn(3)
+		seen := map[string]bool{}
+		names := []string{}
+		for len(names) < n && len(seen) < len(ts.Comps) {
+			c := comp()
+			if !seen[c] {
+				seen[c] = true
+				// the archive interface does not check what it replaces; never aim at an existing directory
+				isDir := false
+				for _, dd := range dirs {
+					if len(dd) == len(d)+1 && strings.Join(dd[:len(d)], "/") == strings.Join(d, "/") && dd[len(d)] == c {
+						isDir = true
+					}
+				}
+				if !isDir {
+					names = append(names, c)
+				}
+			}
+		}
+		if len(names) == 0 {
+			return Call{Op: "Stat", P: d, Q: []string{}}
+		}
+		return Call{Op: "Archive", P: d, Q: names, C: ch}
 	case x < 12:
 		return Call{Op: "Mkdir", P: nonRoot(fresh()), Q: []string{}}
 	case x < 18:
